@@ -66,15 +66,26 @@ class Work:
         shutil.rmtree(self.dir, ignore_errors=True)
 
 
+RE_GROUP = re.compile(r'"group":"([^"]*)"')
+
+
 def split_lines(path, n, outprefix):
-    """Round-robin split of an NDJSON file into n shards; returns shard paths (non-empty only)."""
+    """Split an NDJSON file into n shards; lines that carry the same "group" stay together and in order
+    (a base case and its encoding variants), other lines are dealt round-robin. Returns non-empty shard paths."""
     outs = [open(f"{outprefix}.{i}", "w") for i in range(n)]
     cnt = 0
+    groups = {}
     with open(path) as f:
         for i, line in enumerate(f):
-            if line.strip():
-                outs[i % n].write(line)
-                cnt += 1
+            if not line.strip():
+                continue
+            m = RE_GROUP.search(line[-300:]) or RE_GROUP.search(line[:300])
+            if m:
+                k = groups.setdefault(m.group(1), len(groups) % n)
+            else:
+                k = i % n
+            outs[k].write(line)
+            cnt += 1
     for o in outs:
         o.close()
     paths = [f"{outprefix}.{i}" for i in range(n) if os.path.getsize(f"{outprefix}.{i}") > 0]
